@@ -19,6 +19,10 @@ import (
 
 var ErrResetInProgress = errors.New("reset already in progress")
 
+// errSwapAborted marks the answer of opCleanup when the swap it was asked to
+// perform did not happen.
+var errSwapAborted = errors.New("reset aborted before the swap")
+
 // phaseADrainInterval bounds how long the worker buffer can grow between
 // drains during Phase A when keysChan delivers too slowly to trigger drains
 // via batch flushes. Caps buf growth at concurrent_put_rate × interval,
@@ -632,9 +636,11 @@ func (s *ResettableKeystore) handleResetOp(op resetOp) {
 	// (writes that arrived between Phase C's takeBuf and opCleanup).
 	// withAltDs keeps the altDs serialisation invariant uniform: every
 	// altDs write goes through the altDsBusy token.
+	var swapErr error
 	if op.success {
 		if err := s.withAltDs(ctx, func() error { return s.drainBuf(ctx, s.altPutChecked) }); err != nil {
 			s.logger.Errorf("keystore: aborting swap, final buf drain failed: %v", err)
+			swapErr = fmt.Errorf("%w: final buffer drain: %w", errSwapAborted, err)
 			op.success = false
 		}
 	}
@@ -642,6 +648,7 @@ func (s *ResettableKeystore) handleResetOp(op resetOp) {
 		// Durability boundary: altDs must be on disk before the marker flips.
 		if err := s.withAltDs(ctx, func() error { return s.altDs.Sync(ctx, ds.NewKey("")) }); err != nil {
 			s.logger.Errorf("keystore: aborting swap, altDs sync failed: %v", err)
+			swapErr = fmt.Errorf("%w: alternate datastore sync: %w", errSwapAborted, err)
 			op.success = false
 		}
 	}
@@ -672,7 +679,7 @@ func (s *ResettableKeystore) handleResetOp(op resetOp) {
 	// alt on failure).
 	s.resetInProgress = false
 	s.buf = nil
-	op.response <- s.teardownAltDs(ctx)
+	op.response <- errors.Join(swapErr, s.teardownAltDs(ctx))
 }
 
 // ResetCids atomically replaces all stored keys with the CIDs received from
@@ -695,7 +702,7 @@ func (s *ResettableKeystore) handleResetOp(op resetOp) {
 // Returns ErrResetInProgress if another reset operation is already running.
 // The operation can be cancelled via context, which will clean up partial
 // state.
-func (s *ResettableKeystore) ResetCids(ctx context.Context, keysChan <-chan cid.Cid) error {
+func (s *ResettableKeystore) ResetCids(ctx context.Context, keysChan <-chan cid.Cid) (err error) {
 	if keysChan == nil {
 		return nil
 	}
@@ -755,7 +762,13 @@ func (s *ResettableKeystore) ResetCids(ctx context.Context, keysChan <-chan cid.
 		// Cleanup before returning on success and failure.
 		select {
 		case s.resetOps <- resetOp{ctx: ctx, op: opCleanup, success: success, response: opsChan}:
-			<-opsChan
+			// The swap itself can still be called off (final drain or sync
+			// failed): the keystore then keeps its previous contents, and
+			// the caller must not be told the reset succeeded.
+			if cerr := <-opsChan; success && errors.Is(cerr, errSwapAborted) {
+				success = false
+				err = cerr
+			}
 		case <-s.done:
 			// Worker is done; underlying datastore may already be closed,
 			// so we cannot run the swap. Close() handles altDs teardown.
